@@ -49,6 +49,15 @@ func verifCfgDump(sc *nodeConfig) map[string]any {
 	m[`ljc`] = sc.ljc
 	m[`ord`] = sc.ord
 	m[`mtx`] = sc.mtx != nil
+	// whether the mutex is held right now (probing read: TryLock + Unlock)
+	m[`mtxlocked`] = false
+	if sc.mtx != nil {
+		if sc.mtx.TryLock() {
+			sc.mtx.Unlock()
+		} else {
+			m[`mtxlocked`] = true
+		}
+	}
 	m[`ldr`] = sc.ldr != nil
 	enc := make([][]string, 0, len(sc.enc))
 	for _, e := range sc.enc {
